@@ -438,9 +438,71 @@ func sameValue(a, b ssa.Value) bool {
 	if a == b {
 		return true
 	}
+	// len(x) of the same x
+	if ca, ok := a.(*ssa.Call); ok {
+		if cb, ok := b.(*ssa.Call); ok {
+			ba, ok1 := ca.Call.Value.(*ssa.Builtin)
+			bb, ok2 := cb.Call.Value.(*ssa.Builtin)
+			if ok1 && ok2 && ba.Name() == "len" && bb.Name() == "len" && len(ca.Call.Args) == 1 && len(cb.Call.Args) == 1 {
+				return sameValue(ca.Call.Args[0], cb.Call.Args[0])
+			}
+		}
+	}
 	la, ok1 := a.(*ssa.UnOp)
 	lb, ok2 := b.(*ssa.UnOp)
 	if ok1 && ok2 && la.Op == token.MUL && lb.Op == token.MUL {
+		// two loads of one package-level variable (rule G5: not written after init) or of one captured
+		// variable that the closure itself never assigns
+		if ga, ok := la.X.(*ssa.Global); ok {
+			if gb, ok := lb.X.(*ssa.Global); ok && ga == gb {
+				return true
+			}
+		}
+		// two loads of one local cell when everything that can write it (stores, calls that receive its address)
+		// happens before both loads
+		if aa, ok := la.X.(*ssa.Alloc); ok {
+			if ab, ok := lb.X.(*ssa.Alloc); ok && aa == ab && aa.Referrers() != nil {
+				before := func(w ssa.Instruction, l *ssa.UnOp) bool {
+					if w.Block() == l.Block() {
+						for _, in := range w.Block().Instrs {
+							if in == w {
+								return true
+							}
+							if in == ssa.Instruction(l) {
+								return false
+							}
+						}
+					}
+					return w.Block().Dominates(l.Block())
+				}
+				okAll := true
+				for _, ref := range *aa.Referrers() {
+					if u, isLoad := ref.(*ssa.UnOp); isLoad && u.Op == token.MUL {
+						continue
+					}
+					if _, isDbg := ref.(*ssa.DebugRef); isDbg {
+						continue
+					}
+					if !before(ref, la) || !before(ref, lb) {
+						okAll = false
+					}
+				}
+				if okAll {
+					return true
+				}
+			}
+		}
+		if fa, ok := la.X.(*ssa.FreeVar); ok {
+			if fb, ok := lb.X.(*ssa.FreeVar); ok && fa == fb {
+				written := false
+				eachInstr(la.Parent(), func(in ssa.Instruction) {
+					if st, ok := in.(*ssa.Store); ok && st.Addr == ssa.Value(fa) {
+						written = true
+					}
+				})
+				return !written
+			}
+		}
 		fa, ok1 := la.X.(*ssa.FieldAddr)
 		fb, ok2 := lb.X.(*ssa.FieldAddr)
 		if ok1 && ok2 && fa.Field == fb.Field && sameValue(fa.X, fb.X) {
